@@ -375,6 +375,14 @@ def arith_corpus():
                 out.append(first + "\n" + " " * col + p2 + "\n" + closer + tail + "\n")
             out.append(prefix + opener + "\n" + p1 + "\n " + p2 + "\n" + closer + tail + "\n")
         out.append("cat <<E\n$((" + p1 + "\n   " + p2 + "))\nE\n")
+    # parts of one line with multi-byte text before them: columns count characters, not bytes; the printer decides on a blank
+    # between two parts from their recorded columns
+    for wide in ("é", "日本", "éé", "\"é\"", "'日'"):
+        for gap in ("", " ", "  ", "   "):
+            for nxt in ("$x", "1", "${v}", "y", "+1"):
+                for opener, closer, prefix in (("$((", "))", "echo "), ("((", "))", ""), ("$((", "))", 'echo "é" ')):
+                    out.append(prefix + opener + wide + gap + nxt + closer + "\n")
+                    out.append(prefix + opener + nxt + gap + wide + gap + nxt + closer + "\n")
     return out
 
 
